@@ -336,7 +336,7 @@ fn expect_a(c: &Value, prev_c: &Value, prev: [i64; 2], got: [i64; 2], hist: &[[i
 fn judge(trace: &str, preds: &str) -> Value {
     let recs: Vec<Value> = std::io::BufReader::new(std::fs::File::open(trace).unwrap()).lines().map(|l| serde_json::from_str(&l.unwrap()).unwrap()).collect();
     let mut worlds: Vec<(Value, Vec<Value>)> = vec![];
-    for r in recs { if r["ev"] == "world" { worlds.push((r, vec![])); } else if r["ev"] == "frame" { worlds.last_mut().unwrap().1.push(r); } }
+    for r in recs { if r["ev"] == "world" { worlds.push((r, vec![])); } else if r["ev"] == "frame" || r["ev"] == "op" { worlds.last_mut().unwrap().1.push(r); } }
     let mut by_world: std::collections::BTreeMap<u64, Vec<Value>> = Default::default();
     for l in std::io::BufReader::new(std::fs::File::open(preds).unwrap()).lines() {
         let l = l.unwrap();
@@ -360,7 +360,14 @@ fn judge(trace: &str, preds: &str) -> Value {
             let (mut pa, mut pb, mut p2) = (bits(A0.0, A0.1), bits(B0.0, B0.1), if cfg["c2late"].as_bool().unwrap_or(false) { [0, 0] } else { bits(A20.0, A20.1) });
             let mut hist_a = vec![pa]; // hist_a[f] = component A before frame f+1 (= after frame f)
             let (mut prev_ca, mut prev_cb, mut prev_c2) = (json!(["init"]), json!(["init"]), json!(["init"]));
-            for (fi, fr) in frames.iter().enumerate() {
+            let mut fi = 0usize;
+            for fr in frames.iter() {
+                if fr["ev"] == "op" {
+                    // the second entity's target component removed / inserted between frames: what the next
+                    // evaluation starts from is the inserted value (nothing while absent)
+                    if fr["op"] == "addcomp" { p2 = bits(A20.0, A20.1); } else if fr["op"] == "rmcomp" { p2 = [0, 0]; }
+                    continue;
+                }
                 let (ca, cb, c2) = (&pred[fi]["A"], &pred[fi]["B"], &pred[fi]["A2"]);
                 let (got_a, got_b, got_2) = (arr2(&fr["compA"]), arr2(&fr["compB"]), arr2(&fr["compA2"]));
                 let exp_a = expect_a(ca, &prev_ca, pa, got_a, &hist_a, &mut evals);
@@ -385,7 +392,7 @@ fn judge(trace: &str, preds: &str) -> Value {
                     break;
                 }
                 pa = got_a; pb = got_b; p2 = got_2; hist_a.push(pa); prev_ca = ca.clone(); prev_cb = cb.clone(); prev_c2 = c2.clone();
-                checked += 1;
+                checked += 1; fi += 1;
             }
             if fail.is_none() { ok_any = true; break; } else if first_fail.is_none() { first_fail = fail; }
         }
